@@ -89,6 +89,24 @@ class Engine:
             return m2
         return self._check(*(list(extra) + ax))
 
+    def real_model(self):
+        """a model of the path condition that also respects the real semantics of the abstracted
+        arithmetic (for witnesses that are replayed on the real code)"""
+        if not self.uf_axioms:
+            return self.model
+        ax = list(self.uf_axioms)
+        pins = [p == self.model.eval(p, model_completion=True) for p in self.uf_pins]
+        try:
+            m = self._check(*(ax + pins))
+        except Inconclusive:
+            m = None
+        if m is None:
+            try:
+                m = self._check(*ax)
+            except Inconclusive:
+                m = None
+        return m
+
     def uf_mul(self, a, b):
         a, b = _real(a), _real(b)
         r = UMUL(a, b)
@@ -476,6 +494,31 @@ class SStr(str):
 
     def encode(self, *a, **k):
         raise Unsupported("encode of symbolic str")
+
+
+def _block_str_api():
+    """every other str method would silently work on the placeholder content: make them loud"""
+    allowed = {"__new__", "__init__", "__class__", "__eq__", "__ne__", "__lt__", "__le__", "__gt__", "__ge__",
+               "__hash__", "__bool__", "__len__", "__str__", "__repr__", "__format__", "__mod__", "__add__",
+               "__radd__", "__iter__", "__getitem__", "__contains__", "encode", "__getattribute__",
+               "__setattr__", "__delattr__", "__dir__", "__doc__", "__init_subclass__", "__subclasshook__",
+               "__reduce__", "__reduce_ex__", "__sizeof__", "__getnewargs__", "__rmod__", "__getstate__"}
+
+    def mk(name):
+        def f(self, *a, **k):
+            raise Unsupported("str.%s on a symbolic string" % name)
+        f.__name__ = name
+        return f
+    for name in dir(str):
+        if name in allowed:
+            continue
+        if callable(getattr(str, name)):
+            setattr(SStr, name, mk(name))
+    for name in ("__int__", "__float__", "__index__", "__complex__", "__bytes__", "__mul__", "__rmul__"):
+        setattr(SStr, name, mk(name))
+
+
+_block_str_api()
 
 
 def _num_term(o, like):
